@@ -8,11 +8,13 @@ MCPool == { Num(-3), Num(0), Num(1), Num(4),
             Err("#N/A"), Err("#DIV/0!") }
 MCMaxLen == 4
 MCPartMax == 4
-\* thorough tier, exhaustive to length 5
-MCMaxLen5 == 5
-\* simulation pool (thorough tier): more of everything, up to 5 x 5 cells
-BigPool == MCPool \cup { Num(7), Num(-8), Num(5), Num(2), Bool(0), Txt(""),
-                         Txt("-1.5"), Err("#VALUE!") }
+\* simulation pools: long ranges (up to 5 x 5 cells).  A random 25-cell range
+\* over a pool with errors nearly always holds one, so most traces use the
+\* error-free pool and the rest the pool with three different error values.
+BigPool == { Num(-3), Num(0), Num(1), Num(4), Num(7), Num(-8), Num(5), Num(2),
+             Num(11), Num(-1),
+             Txt("3"), Txt("abc"), Txt(""), Txt("-1.5"), Bool(1), Bool(0), Blank }
+BigPoolE == BigPool \cup { Err("#N/A"), Err("#DIV/0!"), Err("#VALUE!") }
 BigMaxLen == 25
 BigPartMax == 6
 ====
